@@ -178,6 +178,19 @@ def fam_signals(rng, n, nsamp):
         out.append(Scn(f'sig{sig}-{i}-{cfg[0]}ch-{cfg[1]}', ls, 'signal-x-config', budget=120, cost=20 + N * cfg[0] // 150))
     return out
 
+STARVED_CTL = [(1, 0, 0, 40, 1500, 2000, 500), (1, 0, 0, 40, 1500, 1000, 1000), (1, 0, 0, 32, 1500, 4000, 0), (1, 0, 0, 24, 500, 500, 900), (1, 0, 0, 48, 100, 8, 500), (1, 0, 0, 16, 1500, 0, 0)]
+def fam_starved(rng, n, nsamp):
+    """average-only management (NO hard limit) starved far below what the signal needs, with small reservoirs at every bias: the floater bottoms out at the
+       smallest candidate packet, and that packet must still be complete (only a hard maximum may truncate)"""
+    out = []
+    bases = [['eman 0 2 44100 -1 128000 -1'], ['evbr 0 2 44100 500'], ['eman 0 1 22050 -1 32000 -1'], ['evbr 0 1 44100 900'], ['eman 0 2 32000 -1 96000 -1']]
+    combos = [(b, c, sg) for b in bases for c in STARVED_CTL for sg in (1, 7, 3, 4)]
+    rng.shuffle(combos)
+    for i, (b, c, sg) in enumerate(combos[:n]):
+        ls = ['einit 0'] + b + ['ectl 0 rm2set ' + ' '.join(map(str, c)), 'esetup 0', 'eainit 0', 'ehdr 0', f'ewrite 0 {nsamp} {sg} 4096', 'eeof 0', 'dec 0 p 0 1', 'eclear 0 bdci']
+        out.append(Scn(f'starved-{i}-sig{sg}', ls, 'starved-average-no-limit', budget=120, cost=20 + nsamp // 75))
+    return out
+
 def check_c05(pid, tier, seed, replay=None):
     if replay: return _replay(pid, replay, 'ench', *TRACE)
     t0 = time.time(); rng = random.Random(seed); q = tier == 'quick'
@@ -188,14 +201,14 @@ def check_c05(pid, tier, seed, replay=None):
         if kind == 'design':
             os.makedirs(vlib.REPLAY, exist_ok=True); p = os.path.join(vlib.REPLAY, f'{pid}-design-{name}.txt'); open(p, 'w').write(txt)
             extra_viol.append(dict(replay=p, what=f'design-level invariant violated in {name}'))
-    scns = fam_signals(rng, 40 if q else 1500, 12000 if q else 40000)
+    scns = fam_signals(rng, 40 if q else 1500, 12000 if q else 40000) + fam_starved(rng, 8 if q else 120, 16000 if q else 60000)
     res = run_batch(pid, scns, bindir, 'ench', *TRACE)
     def nontrivial(s, evs): return sum(1 for e in evs if e.get('e') == 'DecPkt') >= 3
     npk = sum(1 for s in scns for e in res['scn_events'].get(s.name, []) if e.get('e') == 'DecPkt')
     nlong = sum(1 for s in scns for e in res['scn_events'].get(s.name, []) if e.get('e') == 'Pkt' and e.get('W') == 1)
     ntr = sum(1 for s in scns for e in res['scn_events'].get(s.name, []) if e.get('e') == 'AddBlock' and e['bytes'] != e['sz'][e['choice']])
     return finish(pid, tier, seed, 'model_checking', scns, res, C05_RULES, t0,
-                  'scenarios = signal family (noise, silence, impulses, full scale, DC, denormals, beyond +-1, tones, alternations) x encoder configuration (VBR qualities, ABR, CBR, max-only, min-only, ctl settings); every header and audio packet is fed to the real decoder and the bits it consumed are logged; non-trivial = at least 3 audio packets were decoded and checked; distinct by script hash',
+                  'scenarios = signal family (noise, silence, impulses, full scale, DC, denormals, beyond +-1, tones, alternations) x encoder configuration (VBR qualities, ABR, CBR, max-only, min-only, ctl settings) + average-only management starved below the need of the signal with small reservoirs (no hard limit: nothing may be truncated); every header and audio packet is fed to the real decoder and the bits it consumed are logged; non-trivial = at least 3 audio packets were decoded and checked; distinct by script hash',
                   nontrivial,
                   ['the three header packets are checked through the decoder\'s acceptance and the fixed-offset fields of the identification header; a strict TLA+ parser of the setup header is part of C01/C02 (Setup.tla) and not applied to encoder output here',
                    'TLC, libogg, ASan build of the current tree'],
